@@ -406,6 +406,13 @@ func (c *Conn) StallIncoming(t time.Time) {
 	c.in.stall = t
 }
 
+// SetSeg changes the segmentation mode of reads on this endpoint.
+func (c *Conn) SetSeg(m SegMode) {
+	c.mu.Lock()
+	defer c.mu.Unlock()
+	c.seg = m
+}
+
 // SetWindow changes the number of bytes this endpoint may have in flight.
 func (c *Conn) SetWindow(n int) {
 	c.mu.Lock()
